@@ -560,15 +560,19 @@ def rnd_frame(rng, idx, align=True):
                 thw=rng.randint(0, 2 ** rng.choice([4, 30, 62])))
 
 
-def rnd_script(rng, byte_granular=True):
+def rnd_script(rng, maxz=99):
+    """Short-write script for one HAL call. maxz < 3: the write-all loop never gives up (three empty writes are an I/O failure)."""
     n = rng.choice([0, 0, 1, 1, 2, 3, 5])
     toks = []
     for _ in range(n):
-        toks.append(rng.choice(["H", "Z", "F", "S%d" % rng.randint(1, 150), "S1", "H", "Z"]))
+        t = rng.choice(["H", "Z", "F", "S%d" % rng.randint(1, 150), "S1", "H", "Z"])
+        if t == "Z" and toks.count("Z") >= maxz:
+            t = "H"
+        toks.append(t)
     return toks
 
 
-def rnd_case(rng, cid, kinds, unit, ndev_max=2, scripts=True):
+def rnd_case(rng, cid, kinds, unit, ndev_max=2, scripts=True, maxz=99):
     """set/start/append*/stop cycles on one or two devices, interleaved; paths are fresh per acquisition."""
     nd = rng.choice([1, 1, 2]) if ndev_max > 1 else 1
     c = dict(id=cid, unit=unit, fault=None, devs={d: rng.choice(kinds) for d in range(nd)}, paths={}, metas={}, ops=[], expect=None, origin="random")
@@ -595,12 +599,12 @@ def rnd_case(rng, cid, kinds, unit, ndev_max=2, scripts=True):
                 idx += len(fr)
                 o = dict(op="append", d=d, frames=fr)
                 if scripts:
-                    o["sw"] = rnd_script(rng)
+                    o["sw"] = rnd_script(rng, maxz)
                 p.append(o)
             if cyc < ncyc - 1 or rng.random() < 0.7:     # only the last acquisition may be ended by close
                 o = dict(op="stop", d=d)
                 if scripts and rng.random() < 0.3:
-                    o["sw"] = rnd_script(rng)
+                    o["sw"] = rnd_script(rng, maxz)
                 p.append(o)
         p.append(dict(op="close", d=d))
         progs.append(p)
@@ -815,7 +819,7 @@ def main(prop, tier):
         n = 4000 if thorough else 500
         if drift and not thorough:
             n *= 3
-        cases = [rnd_case(rng, 100000 + i, ["tiff", "tiff-json"], unit=0, scripts=(i % 2 == 0)) for i in range(n)]
+        cases = [rnd_case(rng, 100000 + i, ["tiff", "tiff-json"], unit=0, scripts=(i % 2 == 0), maxz=2) for i in range(n)]
         extra = run_cases(exe, cases, bdir, "rnd")
         chk.set("random_histories", n)
     else:
